@@ -22,7 +22,7 @@ def const_preamble(r):
     return "\n".join(lines) + "\n"
 
 TEXTS = ["Hello there", "100% sure %s %d", "ROUTE 1 \u3000PALLET \u00a0TOWN", "aaaa aaa aa aaa aa aaa aa aaa aa aaa", "Price: 100$", "é ñ ü 𠮷野 😀", "{PLAYER} got {STR_VAR_1}!", "a\\nb\\lc\\pd", "x{y z}w }", "", "$", "ends\\0",
-         "tab\\there", "many   spaces   here", "LV. 50"]
+         "tab\\there", "many   spaces   here", "LV. 50", "K_ONE", "VAR_A", "A", "lock"]
 TYPES = ["", "", "ascii", "braille", "custom", "jp"]
 
 def lit(r, t=None):
@@ -68,13 +68,13 @@ def extras(r, k):
             ents = []
             for typ in r.sample(["MAP_SCRIPT_ON_LOAD", "MAP_SCRIPT_ON_TRANSITION", "MAP_SCRIPT_ON_RESUME", "MAP_SCRIPT_ON_FRAME_TABLE", "MAP_SCRIPT_ON_WARP_INTO_MAP_TABLE"], r.randint(0, 3)):
                 y = r.random()
-                if y < 0.3: ents.append("%s: Ext_%s" % (typ, typ))
+                if y < 0.3: ents.append("%s: %s" % (typ, r.choice(["Ext_%s" % typ, "Ext_%s" % typ, "%s_MAP_SCRIPT_ON_LOAD" % nm, "%s_MAP_SCRIPT_ON_FRAME_TABLE_1" % nm, "%s_MAP_SCRIPT_ON_RESUME" % nm])))
                 elif y < 0.6: ents.append("%s { lock msgbox(%s) %s release }" % (typ, lit(r), r.choice(["", "end", "if (flag(FLAG_A)) { a }", "while (var(VAR_A) < 3) { if (flag(FLAG_B)) { break } }"])))
                 else:
                     rows = []
                     for q in range(r.randint(0, 3) if r.random() < 0.85 else r.randint(10, 13)):
-                        rows.append("%s, %s%s" % (r.choice(["VAR_T", "VAR_A", "VAR_A + 1"]), r.choice(["0", "K_ONE", "K_ONE + 1", "0x2"]),
-                                                    r.choice([": Ext_row%d" % q, " { lock msgbox(%s) release }" % lit(r), " { }"])))
+                        rows.append("%s, %s%s" % (r.choice(["VAR_T", "VAR_A", "VAR_A + 1", "VAR_A + K_ONE % 2"]), r.choice(["0", "K_ONE", "K_ONE + 1", "0x2", "6 % 4", "%d"]),
+                                                    r.choice([": Ext_row%d" % q, " { lock msgbox(%s) release }" % lit(r), " { }", ": %s_%s_%d" % (nm, typ, r.randint(0, 2)), ": %s_MAP_SCRIPT_ON_LOAD" % nm])))
                     ents.append("%s [\n    %s\n  ]" % (typ, "\n    ".join(rows)))
             out.append("mapscripts%s %s {\n  %s\n}" % (sc, nm, "\n  ".join(ents)))
         elif x < 0.85:
@@ -82,7 +82,8 @@ def extras(r, k):
         else:
             cmd = r.choice(["msgbox(%s)" % lit(r), "msgbox(%s, MSGBOX_X)" % fmt_call(r), "applymovement(1, moves(walk_up * 2 face_left))", "setvar(VAR_A, 0x1f)", "cmd(global)", "cmd(local)",
                             "goto_if_set(FLAG_A, X%d_L)" % k, "random(3)", "special(Foo)", "call(X%d_0)" % k, "two(%s, %s)" % (lit(r), lit(r)), "price(PRICE_OF(ITEM_A, 2), %s)" % lit(r), "mv(OBJ(1, MAP_X), moves(walk_up * 2 face_left))",
-                            "goto_if_unset(FLAG_B, Ext_L)", "setvar(VAR_A, BASE-1)", "addvar(VAR_A, 10-3)"])
+                            "goto_if_unset(FLAG_B, Ext_L)", "setvar(VAR_A, BASE-1)", "addvar(VAR_A, 10-3)", "setvar(VAR_A, K_ONE (K_HEX + 1))", "addvar(K_HEX(3), (VAR_A) K_ONE 5)",
+                            'two(ascii"REX", "Is that ok?") msgbox("Is that ok?")', 'sign(braille"ABC", "ABC$", %s)' % lit(r)])
             cond = r.choice(["flag(FLAG_A)", "!defeated(TRAINER_A)", "var(VAR_A) >= value(0x4001)", "random(4) == 2 && flag(FLAG_A) || specialvar(VAR_X, 7) != 0", "checkitem(ITEM_A)", "var(VAR_B) != K_ONE", "var(VAR_A) == TRUE", "var(VAR_B) != false", "!(var(VAR_A) != TRUE) && random(3) == FALSE",
                             "flag(FLAG_A) && flag(FLAG_K) || flag(FLAG_B) && flag(FLAG_K)", "random(10) == 0 || random(10) == 0", "checkitem(ITEM_A) && flag(FLAG_A)"])
             wrap = r.choice(["{cmd}", "if ({cond}) {{ {cmd} }}", "while ({cond}) {{ {cmd} }}", "do {{ {cmd} }} while ({cond})",
@@ -95,7 +96,7 @@ def mix_cfg(r):
     x = r.random()
     kw = dict(optimize=r.random() < 0.5, lm=r.random() < 0.4, path=r.choice(["", "in.pory", "dir\\sub\\f.pory", "a b.pory"]),
               switches=r.choice([{}, {"V": "A", "GAME": "RUBY", "W": "1"}, {"V": "B", "GAME": "RUBY", "W": "A"}, {"V": "ZZ", "W": "1", "GAME": "B"},
-                                 {"V": "A", "GAME": "A", "W": "B"}, {"V": "A"}]), lint=r.random() < 0.1)
+                                 {"V": "A", "GAME": "A", "W": "B"}, {"V": "A"}, {"V": "", "GAME": "RUBY", "W": "1"}, {"V": "A", "W": "", "GAME": ""}]), lint=r.random() < 0.1)
     if x < 0.3:
         c = repo_cfg(deffont=r.choice(["", "", "1_latin_frlg", "NOPE"]), maxlen=r.choice([0, 0, 120, 40]), **kw)
     else:
@@ -135,7 +136,7 @@ CHARS = ["%", "%s", "%%", "\\\\", "$", "$$", "{", "}", "{}", "{A}", "'", "é", "
 def boundary_program(r, k):
     p = "B%d" % k; out = []
     def txt(): return "w%s %s x" % (r.choice(NUMS[:8]), r.choice(CHARS))
-    shape = r.choice(["manytexts", "manymoves", "longlists", "adjacent", "empties", "numbers", "elifs", "cases", "names", "edges", "manyscripts"])
+    shape = r.choice(["manytexts", "manymoves", "longlists", "adjacent", "empties", "numbers", "elifs", "cases", "names", "edges", "manyscripts", "repeats", "repeats", "nested"])
     if shape == "manytexts":
         n = r.choice([10, 11, 12, 21])
         out.append("script %s {\n%s\n}" % (p, "\n".join('  msgbox("t%d %s")' % (i, r.choice(CHARS)) for i in range(n))))
@@ -188,10 +189,43 @@ def boundary_program(r, k):
         first = r.choice(["mart E_m { ITEM_A }", 'text E_t { "x" }', "movement E_v { walk_up }", "raw `x`", "const E_K = 1", "# c", "mapscripts E_s { }", ""])
         out.append(first); out.append("script %s { lock }" % p)
         out.append(r.choice(["mart %s_m { ITEM_A }" % p, 'text %s_t { "x%%" }' % p, "movement %s_v { walk_up }" % p, "raw `y`", "const %s_K = 2" % p, "// end", "script %s_z { end }" % p]))
+    elif shape == "repeats":
+        # one construct many times in one file (past 32 / 64 / 128): per-file counters, caps, leaks
+        n = r.choice([17, 33, 34, 40, 65, 70, 130])
+        forms = ["if ((flag(FLAG_A) || defeated(TRAINER_%d)) && flag(FLAG_B)) { a%d } elif (!(var(VAR_A) == 1 && flag(FLAG_C)) || flag(FLAG_D)) { b%d }",
+                 "while ((flag(FLAG_A) || flag(FLAG_%d)) && !flag(FLAG_B)) { a%d if (flag(FLAG_Q)) { continue } b%d }",
+                 "switch (var(VAR_A)) { case %d: a%d case 1000: b%d break default: }",
+                 "do { a%d if (random(%d) == 1) { break } } while (!(flag(FLAG_A)) || checkitem(ITEM_%d) == TRUE)",
+                 'msgbox("text %d") msgbox("shared") applymovement(%d, moves(walk_up * %d))',
+                 "poryswitch(V) { A { a%d } B: b%d _ { c%d } }",
+                 "L%d: a%d goto(L%d)",
+                 'msgbox(format("aa bb cc dd ee %d", "F1", %d)) msgbox(format("%d aa"))']
+        f = r.choice(forms)
+        if r.random() < 0.5:
+            for i in range(n): out.append("script %s_%d { %s }" % (p, i, f % (i, i, i)))
+        else:
+            out.append("script %s {\n%s\n}" % (p, "\n".join("  " + f % (i, i, i) for i in range(n))))
+        if r.random() < 0.3: out.append("mapscripts %s_ms { MAP_SCRIPT_ON_FRAME_TABLE [ %s ] }" % (p, " ".join("VAR_T, %d { %s }" % (i, f % (i, i, i)) for i in range(n // 4))))
+    elif shape == "nested":
+        # deep nesting of one or two constructs
+        d = r.choice([5, 9, 17, 33]); inner = "core"
+        kinds = r.sample(["if", "while", "do", "switch", "paren", "pory", "else"], r.choice([1, 2]))
+        for i in range(d):
+            k = kinds[i % len(kinds)]
+            if k == "if": inner = "if (flag(FLAG_%d)) { a%d %s b%d }" % (i, i, inner, i)
+            elif k == "else": inner = "if (flag(FLAG_%d)) { a%d } elif (flag(FLAG_X)) { } else { %s }" % (i, i, inner)
+            elif k == "while": inner = "while (var(VAR_A) < %d) { %s if (flag(FLAG_Q)) { %s } }" % (i, inner, r.choice(["continue", "break"]))
+            elif k == "do": inner = "do { %s } while (flag(FLAG_%d))" % (inner, i)
+            elif k == "switch": inner = "switch (var(VAR_%d)) { case 1: %s break default: d%d if (flag(FLAG_Q)) { break } e%d }" % (i, inner, i, i)
+            elif k == "pory": inner = "poryswitch(V) { A { %s } _ { %s } }" % (inner, inner if i < 3 else "z")
+            else: inner = "if (%sflag(FLAG_A) && var(VAR_B) == %d%s || flag(FLAG_C)) { %s }" % ("(" * (i + 1), i, ")" * (i + 1), inner)
+        out.append("script %s { lock %s release }" % (p, inner))
     else:
         n = r.choice([10, 12])
         for i in range(n): out.append("script %s_%d { %s }" % (p, i, r.choice(["lock", 'msgbox("shared")', "if (flag(F)) { a }", "applymovement(1, moves(walk_up))"])))
-    return "\n".join(out) + r.choice(["\n", "", "\n\n"])
+    glue = "\n"
+    if r.random() < 0.2 and not any(o.startswith("#") or o.startswith("//") for o in out): glue = r.choice([" ", "  ", "\t"])     # everything on one line
+    return glue.join(out) + r.choice(["\n", "", "\n\n"])
 
 def gen_boundary(rnd, n):
     out = []
